@@ -13,6 +13,7 @@ import (
 	"strings"
 
 	"github.com/cloudwego/dynamicgo/conv"
+	"github.com/cloudwego/dynamicgo/meta"
 	"github.com/cloudwego/dynamicgo/conv/j2p"
 	dproto "github.com/cloudwego/dynamicgo/proto"
 	rwire "google.golang.org/protobuf/encoding/protowire"
@@ -723,6 +724,9 @@ func c09Messages(cs *h.Case, huge bool) {
 			out, err := cv.Do(context.Background(), desc, []byte(doc))
 			if err == nil {
 				cs.Viol("j2p:unknown-member-accepted", "json", trunc(doc), "out", out)
+			} else if !isErrCode(err, meta.ErrUnknownField) && !strings.Contains(err.Error(), "unknown field: json key") {
+				// the document is conforming apart from its unknown members: nothing else can be wrong with it
+				cs.Viol("j2p:unknown-member-wrong-error", "err", err, "json", trunc(doc))
 			}
 			cs.Cover("j2p_unknown_rejected")
 			return
